@@ -58,3 +58,42 @@ package types
 //@   property C02
 //@   ensures r1 == nil ==> len(raw) <= MAX_TX_SIZE && r0 != nil
 //@   ensures len(raw) > MAX_TX_SIZE ==> r1 != nil
+
+//@ func (*Header).deserializationUnsigned
+//@   property C02
+//@   requires bd != nil && source != nil && source.off <= uint64(len(source.s))
+//@   modifies *bd, source.off
+//@   ensures source.off <= uint64(len(source.s))
+
+//@ func (*Header).Deserialization
+//@   property C02
+//@   mode abstract
+//@   nopanic on
+//@   requires bd != nil && source != nil && source.off <= uint64(len(source.s))
+//@   modifies *bd, source.off, elems(bd.Bookkeepers), elems(bd.SigData)
+//@   ensures source.off <= uint64(len(source.s))
+//@   loop 1 invariant 0 <= i && source.off <= uint64(len(source.s))
+//@   loop 2 invariant 0 <= i && source.off <= uint64(len(source.s))
+
+// a decoded block never repeats a transaction, and its transactions are the ones the header's root commits to
+//@ func (*Block).Deserialization
+//@   property C02
+//@   mode abstract
+//@   nopanic on
+//@   requires self != nil && source != nil && source.off <= uint64(len(source.s)) && len(self.Transactions) == 0
+//@   modifies *
+//@   ghost var gA ArrU64B256
+//@   ghost var gO uint64 = 0
+//@   ghost var gN int = 0
+//@   set before "root := common.ComputeMerkleRoot(hashes)" : gA := arr(hashes)
+//@   set before "root := common.ComputeMerkleRoot(hashes)" : gO := off(hashes)
+//@   set before "root := common.ComputeMerkleRoot(hashes)" : gN := len(hashes)
+//@   loop 1 invariant source != nil && source.off <= uint64(len(source.s)) && self.Header != nil
+//@   loop 1 invariant len(hashes) == int(i) && len(self.Transactions) == int(i) && !isnil(mask)
+//@   loop 1 invariant forall a int :: 0 <= a && a < int(i) ==> self.Transactions[a] != nil && allocated(self.Transactions[a]) && self.Transactions[a].hash == hashes[a]
+//@   loop 1 invariant forall a int :: 0 <= a && a < int(i) ==> mask[hashes[a]]
+//@   loop 1 invariant forall a int, b int :: 0 <= a && a < b && b < int(i) ==> hashes[a] != hashes[b]
+//@   assert[c02-new-hash-is-new] before "mask[txhash] = true" : forall a int :: 0 <= a && a < int(i) ==> hashes[a] != txhash
+//@   ensures[c02-no-duplicate] err == nil ==> forall a int, b int :: 0 <= a && a < b && b < gN ==> sel(gA, gO + uint64(a)) != sel(gA, gO + uint64(b))
+//@   ensures[c02-root] err == nil ==> self.Header != nil && self.Header.TransactionsRoot == txRootOf(gA, gO, gN)
+//@   ensures[c02-root-of-these] err == nil ==> len(self.Transactions) == gN && forall a int :: 0 <= a && a < gN ==> self.Transactions[a].hash == sel(gA, gO + uint64(a))
